@@ -47,7 +47,17 @@ class Registry(object):
         return kw
 
     def cls(self, key, fields, invariant=None):
-        self.classes[key] = {'fields': dict(fields), 'invariant': invariant or []}
+        fields = dict(fields)
+        if key in self.classes:
+            # a second declaration (another contract module) may ADD fields but must agree on the common ones: a silently
+            # different type would change what the clauses of the first module can see
+            old = self.classes[key]
+            clash = {k: (old['fields'][k], fields[k]) for k in fields if k in old['fields'] and old['fields'][k] != fields[k]}
+            if clash:
+                raise ValueError('class %s declared twice with different field types: %r' % (key, clash))
+            fields = dict(old['fields'], **fields)
+            invariant = invariant or old['invariant']
+        self.classes[key] = {'fields': fields, 'invariant': invariant or []}
 
     def finding_class(self, name, fn):
         """fn(ex, st) -> z3 Bool: the failure class of a known finding on trace-level obligations ('py:<name>')"""
